@@ -1,7 +1,7 @@
 (* C11 — Cluster state equals a fresh recomputation from the API.
    Property theorems only; each is closed by [exact] of a lemma from C11/Proofs.v or C11/Proofs2.v.
    Model: C11/Model.v (state.Cluster at method granularity; one op = one call under Cluster.mu). *)
-From KV Require Import C11.Model C11.Proofs C11.Check C11.Proofs2.
+From KV Require Import C11.Model C11.Proofs C11.Check C11.Proofs2 C11.Proofs3.
 
 (* The property.  For every history [ops] of API writes, deliveries (informer reconciles, which read
    the current object) in any order with any duplication, and deletion marks, and for every closing
@@ -105,6 +105,53 @@ Theorem quiescent_equals_fresh_without_pods_settled_refuted :
 Proof. exact unsettled_pod_refuted. Qed.
 Print Assumptions quiescent_equals_fresh_without_pods_settled_refuted.
 
+(* ---- NodePoolState (Active / Deleting sets per NodePool, as maintained through UpdateNodeClaim, Cleanup,
+        MarkForDeletion / UnmarkForDeletion) ---- *)
+(* After the closing round the sets are duplicate-free and contain exactly the NodeClaims the recomputation
+   puts there (Deleting iff the StateNode is marked for deletion or the claim is deleting; an unlaunched claim
+   is Active), so GetNodeCount equals the recomputed counts.  [NInv] (each member of a pool's sets is mapped to
+   that pool, every mapped name is known to the cache, the map agrees with the API labels, i.e. the nodepool
+   label of a NodeClaim does not change) is a premise at the start of the round; PendingDisruption and reserved
+   counts are written by other controllers and are outside the model. *)
+Theorem closing_round_nodepool_sets : forall a c st r,
+  api_ok a -> claims_named a -> RInv a c -> NInv a c st -> Forall is_deliver r -> covers a c r ->
+  nps_match a (view_of (fst (run_round2 a (c, st) r))) (snd (run_round2 a (c, st) r)).
+Proof. exact closing_round_nodepool_sets_l. Qed.
+Print Assumptions closing_round_nodepool_sets.
+
+Theorem nodepool_oracle_is_property : forall a w st, nps_match_b a w st = true <-> nps_match a w st.
+Proof. exact nps_match_b_iff. Qed.
+Print Assumptions nodepool_oracle_is_property.
+
+(* MarkForDeletion / UnmarkForDeletion set the mark of every tracked id of the list, wherever untracked ids
+   sit in it (marks are in-memory state the recomputation cannot see; this is their own specification). *)
+Theorem marks_reach_every_tracked_id : forall (b : bool) (ids : list string) (c : cache) (Y : string),
+  In Y ids -> aget Y (nodes c) <> None ->
+  exists s, aget Y (nodes (fold_left (set_mark b) ids c)) = Some s /\ sn_marked s = b.
+Proof. exact marks_reach_every_tracked_id_l. Qed.
+Print Assumptions marks_reach_every_tracked_id.
+
+(* ---- the weaker quiescence notion "every key was delivered at least once after its last change" ---- *)
+(* A pod delivery settles the node's entry for the API after the write whenever the entry was exact before
+   the write, EXCEPT when the pod was re-written under the same name on the same node and the cached entry
+   of that name is a daemonset entry the pod no longer justifies, carries a disruption cost although the pod
+   now is a daemonset pod, or lists a volume the pod dropped ([clean_rewrite]; updateForPod only ever adds to
+   daemonSetRequests / podDisruptionCosts / volumeUsage.volumes for an existing key).  Only the next Node
+   delivery repairs that.  The history-level statement (hist_ok, pods_settled and no delivery of that shape
+   imply fresh_eq as soon as no key is dirty) is NOT proved; it is the oracle "oracle:once-delivered:*" of
+   Check.v, evaluated on every generated history whose premises hold. *)
+Theorem rewritten_pod_settled : forall a m s p, keyed p_key (a_pods a) ->
+  rebuilt a m s -> on_node m p = true -> clean_rewrite s p ->
+  rebuilt (set_pod a p) m (update_for_pod s p).
+Proof. exact rewritten_pod_settled_l. Qed.
+Print Assumptions rewritten_pod_settled.
+
+Theorem rewritten_pod_without_clean_rewrite_refuted :
+  exists a m s p, keyed p_key (a_pods a) /\ rebuilt a m s /\ on_node m p = true /\
+                  ~ rebuilt (set_pod a p) m (update_for_pod s p).
+Proof. exact rewritten_pod_needs_clean_l. Qed.
+Print Assumptions rewritten_pod_without_clean_rewrite_refuted.
+
 (* ---- non-vacuity: a history with a provider id arriving late, a pod re-created on another node, a
         deletion seen before the update, a mark, and a closing round in a "bad" order satisfies every
         premise, and the recomputation it is compared with is not empty ---- *)
@@ -116,3 +163,10 @@ Example premises_hold_on_a_rich_history :
   spec_bind (fst (run demo_ops)) "default/p0" = Some "n1" /\
   rget "pa" (npr (snd (run (demo_ops ++ demo_round)))) = (4000, 8192, 1).
 Proof. exact demo_ok. Qed.
+
+Example nodepool_sets_on_the_rich_history :
+  nps_match_b (fst (fst (run3 (demo_ops ++ demo_round))))
+              (view_of (snd (fst (run3 (demo_ops ++ demo_round))))) (snd (run3 (demo_ops ++ demo_round))) = true /\
+  ps_get "pa" (snd (run3 (demo_ops ++ [Mark ["nope"; "x0"; "gone"]]))) = ([], ["c0"]) /\
+  ps_get "pa" (snd (run3 (demo_ops ++ demo_round))) = (["c0"], []).
+Proof. exact demo_nps_ok. Qed.
